@@ -550,7 +550,30 @@ impl G {
     pub fn flag_mix_source(&mut self) -> J {
         let ent = |m: &str, f: &str, v: J| json!({"m":m,"c":0,"f":cps(f),"v":v});
         let pat = |k: &str, ic: bool, a: &str| json!({"t":"pat","k":k,"ic":ic,"a":cps(a)});
-        match self.r.below(5) {
+        match self.r.below(6) {
+            // 5  a conjunction made ONLY of negations - a mapping whose keys are all not(k), or
+            //    `not A and not B and not C` - over different fields; documents leave some fields out
+            //    and give the others values that do not match (not missing = false, not false = true)
+            5 => {
+                let fields = ["f", "g", "h"];
+                let n = 2 + self.r.below(2);
+                let docs: Vec<J> = (0..6).map(|_| {
+                    let mut kv = vec![];
+                    for f in fields.iter().take(n) {
+                        match self.r.below(3) { 0 => {} 1 => kv.push((f.to_string(), s_node("x"))), _ => kv.push((f.to_string(), s_node("y"))) }
+                    }
+                    obj(kv)
+                }).collect();
+                self.own_docs = Some(docs);
+                if self.r.chance(1, 2) {
+                    let es: Vec<J> = (0..n).map(|i| ent("not", fields[i], pat("exact", false, "x"))).collect();
+                    json!({"cond":{"t":"id","n":cps("A")},"ids":[[cps("A"),{"t":"map","es":es}]]})
+                } else {
+                    let ids: Vec<J> = (0..n).map(|i| json!([cps(IDENTS[i]), {"t":"map","es":[ent("none", fields[i], pat("exact", false, "x"))]}])).collect();
+                    let cond = (0..n).map(|i| json!({"t":"not","e":{"t":"id","n":cps(IDENTS[i])}})).reduce(|l, r| json!({"t":"and","l":l,"r":r})).unwrap();
+                    json!({"cond":cond,"ids":ids})
+                }
+            }
             // 4  a LIST of regexes (one RegexSet) in which a member is no longer a regex once its
             //    leading / trailing `.*` is cut (`.*?x` -> `?x`, `x\.*` -> `x\`): rewrite must keep it
             4 => {
@@ -1665,10 +1688,17 @@ fn cond_tree(g: &mut G, depth: usize) -> J {
         return match g.r.below(12) {
             0 => json!({"t":"all","n":cps(*g.r.pick(names))}),
             1 => json!({"t":"of","n":cps(*g.r.pick(names)),"c":g.r.below(3)}),
-            2 => json!({"t":"cmp","op":*g.r.pick(&["eq","gt","ge","lt","le"]),
-                        "l":{"t":"cast","k":"int","f":cps("f")},"r":{"t":"const","n":int_node(&format!("{}", g.r.below(3)))}}),
-            3 => json!({"t":"cmp","op":*g.r.pick(&["eq","gt","lt"]),
-                        "l":{"t":"const","n":flt_node("1.5")},"r":{"t":"cast","k":"flt","f":cps("g")}}),
+            2 | 3 => {
+                let (mut l, mut r) = if g.r.chance(1, 2) {
+                    (json!({"t":"cast","k":"int","f":cps("f")}), json!({"t":"const","n":int_node(&format!("{}", g.r.below(3)))}))
+                } else {
+                    (json!({"t":"const","n":flt_node("1.5")}), json!({"t":"cast","k":"flt","f":cps("g")}))
+                };
+                // redundant parentheses around a lone operand: `(int(f)) > 1`, `int(f) > (1)`
+                if g.r.chance(1, 4) { l = json!({"t":"par","e":l}); }
+                if g.r.chance(1, 4) { r = json!({"t":"par","e":r}); }
+                json!({"t":"cmp","op":*g.r.pick(&["eq","gt","ge","lt","le"]),"l":l,"r":r})
+            }
             _ => json!({"t":"id","n":cps(*g.r.pick(names))}),
         };
     }
@@ -2081,8 +2111,17 @@ pub fn gen_cases(topic: &str, seed: u64, n: usize, path: &str) -> Result<(), Str
                 if class == "str" && !g.r.chance(g.kf_pct, 100) {
                     vs = avoid_partial_batch(vs);
                 }
+                // needles that nest or overlap (one member is part of another): the value that is exactly
+                // the longer one holds both
+                if class == "str" && k >= 2 && g.r.chance(1, 6) {
+                    let base = g.word(3, true) + "ab";
+                    vs = vec![json!({"t":"pat","k":"contains","ic":false,"a":cps(&base[..base.len() - 1])}),
+                              json!({"t":"pat","k":"contains","ic":false,"a":cps(&base)}),
+                              json!({"t":"pat","k":"contains","ic":false,"a":cps(&base[1..])})];
+                    vs.truncate(k.min(3).max(2));
+                }
                 let k = vs.len();
-                let form = g.r.below(5);
+                let form = g.r.below(7);
                 let n = g.r.below(k + 2) as u64;
                 let fld = |i: usize| if form >= 3 { format!("f{}", i) } else { "f".to_string() };
                 let ent = |m: &str, c: u64, f: &str, v: J| json!({"m":m,"c":c,"f":cps(f),"v":v});
@@ -2093,8 +2132,13 @@ pub fn gen_cases(topic: &str, seed: u64, n: usize, path: &str) -> Result<(), Str
                     2 => (json!({"t":"id","n":cps("A")}), json!({"t":"map","es":[ent("of", n, "f", list)]}), "of"),
                     3 => (json!({"t":"all","n":cps("A")}),
                           json!({"t":"seq","ms":(0..k).map(|i| json!({"t":"map","es":[ent("none", 0, &fld(i), vs[i].clone())]})).collect::<Vec<_>>()}), "all"),
-                    _ => (json!({"t":"of","n":cps("A"),"c":n}),
+                    4 => (json!({"t":"of","n":cps("A"),"c":n}),
                           json!({"t":"seq","ms":(0..k).map(|i| json!({"t":"map","es":[ent("none", 0, &fld(i), vs[i].clone())]})).collect::<Vec<_>>()}), "of"),
+                    // the identifier as ONE mapping with k keys: its entries are the keys
+                    5 => (json!({"t":"all","n":cps("A")}),
+                          json!({"t":"map","es":(0..k).map(|i| ent("none", 0, &fld(i), vs[i].clone())).collect::<Vec<_>>()}), "all"),
+                    _ => (json!({"t":"of","n":cps("A"),"c":n}),
+                          json!({"t":"map","es":(0..k).map(|i| ent("none", 0, &fld(i), vs[i].clone())).collect::<Vec<_>>()}), "of"),
                 };
                 let src = json!({"cond":cond,"ids":[[cps("A"), body]]});
                 // explicit form
@@ -2435,6 +2479,27 @@ pub fn gen_cases(topic: &str, seed: u64, n: usize, path: &str) -> Result<(), Str
                                      "lockstep": if shape == 2 || shape == 3 || g.r.chance(1, 8) { 16 } else { 0 }}}),
             // C13: validate() against the rule's own examples
             "val" => {
+                // a FLAT spelling of some documents: a nested object `s: {t: v}` written as the one
+                // literal key "s.t" - a different document, in which the path s.t does not resolve
+                let mut docs = docs;
+                let flat: Vec<J> = docs.iter().filter_map(|d| {
+                    let kv = d["kv"].as_array()?;
+                    let mut out = vec![];
+                    let mut changed = false;
+                    for p in kv {
+                        if p[1]["t"] == "O" && !p[1]["kv"].as_array().map(|a| a.is_empty()).unwrap_or(true) {
+                            for q in p[1]["kv"].as_array().unwrap() {
+                                let k = format!("{}.{}", str_of(&p[0]).ok()?, str_of(&q[0]).ok()?);
+                                out.push(json!([cps(&k), q[1]]));
+                            }
+                            changed = true;
+                        } else {
+                            out.push(p.clone());
+                        }
+                    }
+                    if changed { Some(json!({"t":"O","kv":out})) } else { None }
+                }).take(2).collect();
+                docs.extend(flat);
                 let mut tps = vec![];
                 let mut tns = vec![];
                 for i in 0..docs.len() {
